@@ -39,13 +39,15 @@ Names == CASE Kernel \in {"ref", "cw"} -> {"a", "A", "b"}
            [] Kernel \in {"struct", "switch"} -> {"a", "b"}
            [] OTHER -> {"a", "A", "b", "salt", "Salt", "olive oil", "crE2me", "E4"}
 SingleWord(n) == n \notin {"olive oil", "frying pan"}
-NameChunks(n) == CASE n = "crE2me" -> <<"cr", "E2", "me">> [] OTHER -> <<n>>
+\* "NSP" is the blank inside a two-word name: a chunk of its own so that C17 can put a comment or a line break there
+NameChunks(n) == CASE n = "crE2me" -> <<"cr", "E2", "me">> [] n = "olive oil" -> <<"olive", "NSP", "oil">>
+                   [] n = "frying pan" -> <<"frying", "NSP", "pan">> [] OTHER -> <<n>>
 ModSets == IF ~Has("MODIFIERS") THEN {{}}
-           ELSE CASE Kernel \in {"ref", "cw"} -> {{}, {"ref"}, {"new"}, {"hidden"}, {"opt"}, {"ref", "opt"}, {"ref", "new"}}
+           ELSE CASE Kernel \in {"ref", "cw"} -> {{}, {"ref"}, {"new"}, {"hidden"}, {"opt"}, {"ref", "opt"}, {"ref", "new"}, {"ref", "new", "opt"}}
                   [] Kernel = "defect" -> {{}}
                   [] Kernel \in {"struct", "switch"} -> {{}, {"ref"}}
                   [] OTHER -> {{}, {}, {}, {"ref"}, {"ref"}, {"new"}, {"hidden"}, {"opt"}, {"recipe"}, {"ref", "opt"}, {"ref", "hidden"},
-                               {"hidden", "opt"}, {"ref", "new"}}
+                               {"hidden", "opt"}, {"ref", "new"}, {"ref", "new", "opt"}, {"ref", "new", "hidden"}}
 ModChar(m) == CASE m = "ref" -> "&" [] m = "new" -> "+" [] m = "hidden" -> "-" [] m = "opt" -> "?" [] m = "recipe" -> "@"
 ModOrder == <<"recipe", "ref", "opt", "new", "hidden">>
 ModChunks(ms, rev) == LET o == IF rev THEN <<"hidden", "new", "opt", "ref", "recipe">> ELSE ModOrder
@@ -67,7 +69,9 @@ WordText(x)   == CASE x = "a\\@b" -> "a@b" [] OTHER -> x
 Inlines == {[n |-> "180", u |-> "C"], [n |-> "5", u |-> "min"], [n |-> "2", u |-> "bags"]}
 MetaPool == {[k |-> "title", v |-> "Soup"], [k |-> "servings", v |-> "2"], [k |-> "servings", v |-> "2|4"],
              [k |-> "k", v |-> "v w"], [k |-> "source", v |-> "book"], [k |-> "servings", v |-> "3 cups"],
-             [k |-> "servings", v |-> "6|2"], [k |-> "servings", v |-> "4 | 2 | 8"]}
+             [k |-> "servings", v |-> "6|2"], [k |-> "servings", v |-> "4 | 2 | 8"],
+             \* the other two spellings of the servings key
+             [k |-> "serves", v |-> "4"], [k |-> "yield", v |-> "6|2"]}
 SectionNames == IF Kernel = "full" THEN {"", "Prep", "Main part"} ELSE {"", "S"}
 
 (* ---- spelling parameters -------------------------------------------------------------------- *)
@@ -133,7 +137,7 @@ CompChunks(kind, c, sp) ==
   \o (IF c.note # "" THEN <<"(", c.note, ")">> ELSE <<>>)
 
 (* ---- byte offsets of what has been written (labels of diagnostics are byte spans) -------------------- *)
-ChunkBytes(c) == CASE c \in {"LF", "CR", "BS", "QUOTE", "TAB", "SP"} -> 1 [] c = "GAP" -> 0 [] c \in {"E2", "DEG", "NBSP"} -> 2 [] c = "E4" -> 4 [] OTHER -> Len(c)
+ChunkBytes(c) == CASE c \in {"LF", "CR", "BS", "QUOTE", "TAB", "SP", "NSP"} -> 1 [] c = "GAP" -> 0 [] c \in {"E2", "DEG", "NBSP"} -> 2 [] c = "E4" -> 4 [] OTHER -> Len(c)
 RECURSIVE BytesOf(_, _)
 BytesOf(cs, i) == IF i > Len(cs) THEN 0 ELSE ChunkBytes(cs[i]) + BytesOf(cs, i + 1)
 NoDefect == [class |-> "", sev |-> "", stage |-> "", s |-> 0, e |-> 0]
@@ -404,7 +408,14 @@ VariantTexts ==
    blocknote  |-> Subst(text, 1, "GAP", <<"[- n -]", "LF">>, Odd(1)),
    \* blanks after the `---` fences of a front matter (the fence is compared after trimming the line end)
    fenceblank |-> Subst(text, 1, "---", <<"---", "  ">>, Every(1)),
-   fencetab   |-> Subst(text, 1, "---", <<"---", "TAB">>, Odd(1))]
+   fencetab   |-> Subst(text, 1, "---", <<"---", "TAB">>, Odd(1)),
+   \* inside a two-word name: the blanks around a comment or a line break still collapse to one
+   namecomment |-> Subst(text, 1, "NSP", <<" [- x -] ">>, Every(1)),
+   namebreak  |-> Subst(text, 1, "NSP", <<" -- x", "LF">>, Odd(1)),
+   namewrap   |-> Subst(text, 1, "NSP", <<" ", "LF", " ">>, Every(1)),
+   \* block comments closed in the decorated style: the terminator sits behind a run of dashes
+   blockdash  |-> Subst(text, 1, "SP", <<" [-- x --] ">>, Every(1)),
+   notedash   |-> Subst(text, 1, "GAP", <<"[--- n ---]", "LF">>, Every(1))]
 
 (* ---- what the specification predicts for the finished document ------------------------------------- *)
 DiagClasses == [i \in DOMAIN a.diags |-> a.diags[i]]
